@@ -193,6 +193,38 @@ def api_eval(
     return out + [v] if raw else out
 
 
+_PROGS: Dict[Any, Any] = {}
+
+
+def eval_cached(runner: str, src: str, bindings: Dict[str, Any]) -> List[Any]:
+    """Like api_eval for a closed-form source evaluated with many different bindings:
+    the program is built once per (runner, source) and re-evaluated (re-evaluation with new
+    bindings is itself part of the documented API)."""
+    c = celpy()
+    key = (runner, src)
+    prog = _PROGS.get(key)
+    if prog is None:
+        try:
+            env = c.Environment(runner_class=runner_class(runner))
+            prog = env.program(env.compile(src))
+        except c.CELParseError as ex:
+            return ["P", ex.line, ex.column]
+        except c.CELEvalError:
+            return ["E"]
+        except Exception as ex:
+            return ["X", "program", type(ex).__name__, _left_from(ex), _msg(ex)]
+        if len(_PROGS) > 500:
+            _PROGS.clear()
+        _PROGS[key] = prog
+    try:
+        v = prog.evaluate(bindings)
+    except c.CELEvalError:
+        return ["E"]
+    except Exception as ex:
+        return ["X", "evaluate", type(ex).__name__, _left_from(ex), _msg(ex)]
+    return ["V", canon(v)]
+
+
 def _msg(ex: BaseException) -> str:
     try:
         return str(ex)[:160]
